@@ -194,7 +194,7 @@ func init() {
 func init() {
 	props["C20"] = &propSpec{
 		Level:       "exploration",
-		Rule:        "part A (exhaustive=true refers to it): every sequence of AddRef/DecRef/Close on a freshly opened segment with the count positive until the last operation and at most 4 (quick) / 5 (thorough) AddRefs, i.e. length <= 9 / 11; before every operation a read sample (postings, stored fields, doc values) is compared with the model, after every operation /proc/self/maps and /proc/self/fd are inspected (unique file per sequence): mapping and exactly one descriptor present while the count is positive, none after the final release; every release must return nil. Part B (race detector): 2-16 holder goroutines (reference taken on their behalf while the owner holds its own, some nested AddRef/DecRef) read and release via DecRef or Close while the owner closes at a seeded point, GOMAXPROCS 2/4/16; afterwards the file must be unmapped and closed. In-memory segment: reads, AddRef/DecRef, Close return nil. distinct = sequences / concurrent rounds",
+		Rule:        "part A (exhaustive=true refers to it): every sequence of AddRef/DecRef/Close on a freshly opened segment with the count positive until the last operation and at most 4 (quick) / 7 (thorough) AddRefs, i.e. length <= 9 / 15; before every operation a read sample (postings, stored fields, doc values) is compared with the model, after every operation /proc/self/maps and /proc/self/fd are inspected (unique file per sequence): mapping and exactly one descriptor present while the count is positive, none after the final release; every release must return nil. Part B (race detector): 2-16 holder goroutines (reference taken on their behalf while the owner holds its own, some nested AddRef/DecRef) read and release via DecRef or Close while the owner closes at a seeded point, GOMAXPROCS 2/4/16; afterwards the file must be unmapped and closed. In-memory segment: reads, AddRef/DecRef, Close return nil. distinct = sequences / concurrent rounds",
 		Assumptions: append([]string{"reference operations are balanced and a holder only takes a reference while it is known to be positive (as scorch does)"}, commonAssumptions...),
 		Runs: func(tier string) []runSpec {
 			return []runSpec{
@@ -263,7 +263,7 @@ func init() {
 	}
 	props["C16"] = &propSpec{
 		Level:       "exploration",
-		Rule:        "part A (exhaustive=true refers to it): one persisted segment with a vector field; for every ordered pair (e1,e2) of distinct exclusion sets from {none, one doc, half, all} every event sequence of length <= 5 (quick) / 6 (thorough) over {open(e1), open(e2), search(h0), search(h1), filtered-search(h0), close(h0), close(h1), expire (4 synchronous expiry passes through the verif hook)} with at most 2 handles open, on a freshly opened segment per sequence with the cache timer parked; remaining handles are closed, then the segment; oracle per search: exactly C14's answer for that handle's own exclusion set; engine monitor after every event (no use-after-close, no close-during-use, no double close) and after the bounded drain following segment close (no native index alive). Part A2: batches with >= 1000 vectors in a field (clustered index, default search parameters): eight kinds of search (small / full k, sparse / dense eligible set, with and without exclusions) are answered once each by a freshly opened segment, then a random history of 14 such searches and expiry passes on one more opening must give the same answers. Part B (race detector): 8-32 goroutines open/search/close with random exclusion sets while the expiry monitor ticks every 1 ms. distinct = histories / stress rounds",
+		Rule:        "part A (exhaustive=true refers to it): one persisted segment with a vector field; for every ordered pair (e1,e2) of distinct exclusion sets from {none, one doc, half, all} every event sequence of length <= 5 (quick) / 7 (thorough) over {open(e1), open(e2), search(h0), search(h1), filtered-search(h0), close(h0), close(h1), expire (4 synchronous expiry passes through the verif hook)} with at most 2 handles open, on a freshly opened segment per sequence with the cache timer parked; remaining handles are closed, then the segment; oracle per search: exactly C14's answer for that handle's own exclusion set; engine monitor after every event (no use-after-close, no close-during-use, no double close) and after the bounded drain following segment close (no native index alive). Part A2: batches with >= 1000 vectors in a field (clustered index, default search parameters): eight kinds of search (small / full k, sparse / dense eligible set, with and without exclusions) are answered once each by a freshly opened segment, then a random history of 14 such searches and expiry passes on one more opening must give the same answers. Part B (race detector): 8-32 goroutines open/search/close with random exclusion sets while the expiry monitor ticks every 1 ms. distinct = histories / stress rounds",
 		Assumptions: append([]string{"a handle is closed exactly once by its owner and before the segment is closed", "the asynchronous index closers are given a bounded drain; a drain timeout is reported as a leak"}, vecAssumptions...),
 		Runs: func(tier string) []runSpec {
 			return []runSpec{
